@@ -1,10 +1,47 @@
 (* C14 — a regex literal finds what that regular expression finds. *)
 From Model Require Import Front.
-From Proofs Require Import RegexTotal.
+From Spec Require Import RegexSpec.
+From Proofs Require Import RegexTotal RegexRoundTrip.
+Local Open Scope N_scope.
 
+(* The regular expressions of the supported subset are the trees of Spec/RegexSpec.v: literal and
+   escaped characters, `.`, \d \D \s \S, bracket classes with ranges and negation, plain /
+   non-capturing / named groups, * + ? {m} {m,} {m,n} and their lazy forms on any atom or group,
+   alternation of single items, ^ $, numbered and named back-references, nested without bound.
+   [tr_disj] is what each DENOTES as a vore pattern tree: `.` = any character but a newline,
+   a class = `in`/`not in` of its characters and ranges, a quantifier = the loop with those bounds
+   (lazy = fewest), a|b = a or b, (x) = capture named _N with N counted by opening parenthesis,
+   (?<n>x) = capture named n, \N / \k<n> = back-reference to that capture.
+   For EVERY well-formed tree, parsing its written form yields exactly that denotation - so by C01
+   (the VM finds what the specification of the pattern tree defines) `find all @/re/` finds what the
+   denotation finds. *)
+Theorem C14_regex_roundtrip : forall (d : rdis) (g : nat), wf_disj d [] ->
+  parse_regexp (show_disj d) g = POk (EPrim (LSubExpr (fst (tr_disj d g))), snd (tr_disj d g)).
+Proof. exact regex_roundtrip_lemma. Qed.
+Print Assumptions C14_regex_roundtrip.
+
+(* every other byte string between @/ and / gives a tree or an error, never a panic or a hang *)
 Theorem C14_regex_parser_total : forall re g, parse_regexp re g <> PCrash /\ parse_regexp re g <> PFuel.
 Proof.
   intros re g. pose proof (parse_regexp_safe re g) as H.
   destruct (parse_regexp re g); cbn in H; try contradiction; split; discriminate.
 Qed.
 Print Assumptions C14_regex_parser_total.
+
+(* non-vacuity and group numbering:  ((a)b)\2|c+?  is well formed; the outer group is _1, the inner _2 *)
+Definition ex_re : rdis :=
+  DCons (PAlt (RQ (RGroup GNum (DCons (POne (RQ (RGroup GNum (DCons (POne (RQ (RChar 97) None)) DNil)) None))
+                                (DCons (POne (RQ (RChar 98) None)) DNil))) None)
+              (POne (RQ (RBackNum 50) None)))
+        (DCons (POne (RQ (RChar 99) (Some (QPlus, true)))) DNil).
+
+Example C14_witness :
+  wf_disj ex_re [] /\
+  show_disj ex_re = [40;40;97;41;98;41;124;92;50;99;43;63] /\
+  fst (tr_disj ex_re 0) =
+    ECons (EBranch (LSubExpr (ECons (EPrim (LSubExpr (ECons (EDec [95;49] (LSubExpr
+              (ECons (EPrim (LSubExpr (ECons (EDec [95;50] (LSubExpr (ECons (EPrim (LStr false false [97])) ENil))) ENil)))
+              (ECons (EPrim (LStr false false [98])) ENil)))) ENil))) ENil))
+                   (EPrim (LVar [95;50])))
+    (ECons (ELoop 1 (-1) true [] (EPrim (LStr false false [99]))) ENil).
+Proof. split; [cbn; repeat split; try reflexivity; try exact I|]. split; reflexivity. Qed.
